@@ -599,7 +599,7 @@ func init() {
 			"U sibling uniformity, S1 statement protocol and A2 accessor category over the channel specialisations (Send, Recv, select) in channel.go / select.go. " +
 			"H2 no statement or expression closure assigns to a variable of its compile function: compiled closures are shared by every goroutine that executes the same code (known finding F45: the call-site caches cachedfun/cachedfunv of five call compilers, a data race the race detector confirms); " +
 			"E3 the function value and the arguments of a go statement are detached from the variables they were read from before the goroutine starts (found F37: `go f(p); p.a = 50` let the goroutine see 50). " +
-			"Not decided: every schedule-dependent outcome, races inside user data, channel semantics (delegated to reflect.Send/Recv/Select).",
+			"E5 a go statement invokes the function value itself: it reads Call.Ellipsis and uses CallSlice for f(a, xs...) (found F54). S5 every compiler of a send value (statement and select case) converts a constant to the element type; N7 the Value of a constant handed to reflect is tested with IsValid (found F55). Not decided: every schedule-dependent outcome, races inside user data, channel semantics (delegated to reflect.Send/Recv/Select).",
 		Assumptions: []string{"reflect.Value.Send/Recv/Select implement Go's channel semantics", "sync/atomic semantics"},
 		Rules: []func(*Ctx){func(c *Ctx) {
 			ruleLockSet(c, "fast", "IrGlobals", "gls", "lock", "X1-lock-set")
@@ -609,14 +609,20 @@ func init() {
 			ruleNoSharedRuntimeStorage(c, "H1-no-shared-storage")
 			ruleGoAttachesToOwnFrame(c, "X3g-go-own-frame")
 			ruleDetachedOperands(c, "E3-detached-operands", "fast.Comp.Go")
+			ruleSendValueConversion(c, "S5-send-value-conversion")
+			ruleConstantNilValue(c, "N7-constant-nil-value", nil)
+			ruleEllipsisCallSlice(c, "E5-ellipsis-callslice")
 			ruleUniformity(c, "fast", []string{"channel.go", "select.go"}, "U-uniform")
 			ruleStmtProtocol(c, "fast", []string{"channel.go", "select.go", "statement.go"}, "S1-stmt-protocol")
 			ruleAccessorFiles(c, "fast", []string{"channel.go", "select.go"}, "A2-accessor")
 			c.Floor("U-uniform", 55)
 		}},
 		Mutants: []Mutant{
+			{Name: "select-send-case-skips-constant-conversion", File: "fast/select.go", Old: "\t\tif esend.Const() {\n\t\t\t// as Comp.Send does: an untyped constant, or nil, takes the element type\n\t\t\tesend.ConstTo(texpected)\n\t\t} else if tactual == nil || !tactual.AssignableTo(texpected) {", New: "\t\tif tactual == nil || !tactual.AssignableTo(texpected) {"},
+			{Name: "send-of-nil-constant-unchecked", File: "fast/channel.go", Old: "\t\tif !v.IsValid() {\n\t\t\t// sending the constant nil: it was converted to telem above\n\t\t\tv = xr.Zero(telem)\n\t\t}\n", New: ""},
+			{Name: "go-statement-ignores-ellipsis", File: "fast/statement.go", Old: "\t\t\tif ellipsis {\n\t\t\t\t// go f(a, xs...) passes xs as the variadic slice\n\t\t\t\tfunv.CallSlice(argv)\n\t\t\t} else {\n\t\t\t\tfunv.Call(argv)\n\t\t\t}\n", New: "\t\t\tfunv.Call(argv)\n"},
 			{Name: "select-cases-allocated-once", File: "fast/select.go", Old: "\tc.append(func(env *Env) (Stmt, *Env) {\n\t\tcases := make([]xr.SelectCase, len(entries))\n", New: "\tcases := make([]xr.SelectCase, n)\n\tc.append(func(env *Env) (Stmt, *Env) {\n"},
-			{Name: "go-args-evaluated-in-goroutine", File: "fast/statement.go", Old: "\t\t\tfunv.Call(argv)\n\t\t}()", New: "\t\t\tfunv.Call(append(argv[:0:0], exprfun(env2)))\n\t\t}()", Canary: true},
+			{Name: "go-args-evaluated-in-goroutine", File: "fast/statement.go", Old: "\t\t\t\tfunv.Call(argv)\n\t\t\t}\n\t\t}()", New: "\t\t\t\tfunv.Call(append(argv[:0:0], exprfun(env2)))\n\t\t\t}\n\t\t}()", Canary: true},
 			{Name: "go-argument-aliases-variable", File: "fast/statement.go", Old: "\t\t\tv := argfun(env2)\n\t\t\tif v.CanSet() {\n\t\t\t\tv = v.Convert(v.Type()) // make a copy\n\t\t\t}\n\t\t\targv[i] = v\n", New: "\t\t\targv[i] = argfun(env2)\n"},
 			{Name: "gls-delete-unlocked", File: "fast/compile.go", Old: "\tg.lock.Lock()\n\tdelete(g.gls, goid)\n\tg.lock.Unlock()\n", New: "\tdelete(g.gls, goid)\n", Canary: true},
 			{Name: "send-int16-does-not-advance", File: "fast/channel.go", Old: "\t\t\t\t\t\tchannel := channelfun(env).Interface().(chan<- int16)\n\t\t\t\t\t\tchannel <- value\n\t\t\t\t\t\tenv.IP++\n", New: "\t\t\t\t\t\tchannel := channelfun(env).Interface().(chan<- int16)\n\t\t\t\t\t\tchannel <- value\n", Nth: 1},
